@@ -457,33 +457,73 @@ package trzsz
 // clean-up list or the name map. (Frame-only contracts: what they compute is specified elsewhere.)
 // ===========================================================================
 
+//@ # the protocol alphabet: letters, digits and # : + / =
+//@ pure isLetter(c int) bool = (97 <= c && c <= 122) || (65 <= c && c <= 90) || (48 <= c && c <= 57) || \
+//@     c == 35 || c == 58 || c == 43 || c == 47 || c == 61
+
+//@ func isTrzszLetter pure
+//@   ensures r0 <==> isLetter(b)
+//@ end
+//@ func isVT100End pure
+//@   ensures r0 <==> ((97 <= b && b <= 122) || (65 <= b && b <= 90))
+//@ end
+
+//@ # everything in the line buffer is a protocol letter
+//@ pure lineLetters(b *trzszBuffer) bool = 0 <= bufLen[b.readBuf] && \
+//@     (forall j int {heap("byte")[bufArr[b.readBuf]][j]} :: 0 <= j && j < bufLen[b.readBuf] ==> isLetter(heap("byte")[bufArr[b.readBuf]][j]))
+
+//@ # C16, Windows console framing: whatever noise surrounds it, a returned line is non-empty and
+//@ # consists of protocol letters only (control sequences, padding and re-printed characters never
+//@ # reach it); the cursor invariant is kept so the next read continues where this one stopped.
 //@ func trzszBuffer.readLineOnWindows
 //@   requires tbWF(b)
 //@   assigns b.nextBuf, b.nextIdx, b.timeout, b.newTimeout, recvd, bufLen, bufCap, bufArr, elemsof("byte")
 //@   ensures tbWF(b)
+//@   ensures [C16] err == nil ==> len(r0) > 0 && (forall j int {r0[j]} :: 0 <= j && j < len(r0) ==> isLetter(r0[j]))
 //@   loop 1
 //@     invariant tbWF(b)
+//@     invariant [C16] lineLetters(b)
 //@   loop 2
 //@     invariant tbWF(b)
+//@     invariant [C16] lineLetters(b)
+//@     invariant [C16] 0 <= i && i <= len(buf)
 //@ end
 
 //@ func trzszTransfer.checkStop pure
 //@ end
 
+//@ pure noHash(a []byte) bool = forall k int {a[k]} :: 0 <= k && k < len(a) ==> a[k] != 35
+//@ # what the marker cut leaves: nothing, or a line that starts at a '#', or a line without any '#'
+//@ pure cutOK(a []byte) bool = len(a) == 0 || a[0] == 35 || noHash(a)
+
+//@ # a tmux status-line control string starts with ESC P =
+//@ pure dcsAt(a []byte, k int) bool = a[k] == 27 && a[k + 1] == 80 && a[k + 2] == 61
+
+//@ # C16: the result contains no status-line control string any more; a line without one is
+//@ # whose first byte is not ESC keeps its first byte; the loop terminates (the buffer gets strictly shorter).
 //@ func trzszTransfer.stripTmuxStatusLine
 //@   assigns bufLen, bufCap, bufArr, elemsof("byte")
 //@   # only freshly allocated byte arrays are written; existing buffers keep their ghost state
 //@   ensures forall r int {heap("byte")[r]} :: r <= old(alloc()) ==> heap("byte")[r] == old(heap("byte"))[r]
 //@   ensures forall q int {bufArr[q]} :: q <= old(alloc()) ==> bufArr[q] == old(bufArr)[q]
+//@   ensures [C16] forall k int {r0[k]} :: 0 <= k && k + 3 <= len(r0) ==> !dcsAt(r0, k)
+//@   ensures [C16] len(buf) > 0 && old(buf[0]) != 27 ==> len(r0) > 0 && r0[0] == old(buf[0])
+//@   ensures [C16] old(noHash(buf)) ==> noHash(r0)
 //@   loop 1
+//@     invariant [C16] old(noHash(buf)) ==> noHash(buf)
 //@     invariant forall r int {heap("byte")[r]} :: r <= old(alloc()) ==> heap("byte")[r] == old(heap("byte"))[r]
 //@     invariant forall q int {bufArr[q]} :: q <= old(alloc()) ==> bufArr[q] == old(bufArr)[q]
+//@     invariant [C16] old(len(buf) > 0 && buf[0] != 27) ==> len(buf) > 0 && buf[0] == old(buf[0])
+//@     decreases len(buf)
 //@ end
 
+//@ # C16: in Windows framing and in tmux junk mode, text in front of the line's marker is cut away
 //@ func trzszTransfer.recvLine
 //@   requires t.buffer != nil && tbWF(t.buffer)
 //@   assigns fields(t.buffer), recvd, bufLen, bufCap, bufArr, elemsof("byte"), wlog, wlen
 //@   ensures tbWF(t.buffer)
+//@   ensures [C16] r1 == nil && !t.tunnelConnected && \
+//@       (windowsEnvironment || t.windowsProtocol || t.transferConfig.TmuxOutputJunk || mayHasJunk) ==> cutOK(r0)
 //@ end
 
 //@ func trzszTransfer.recvCheck
@@ -547,8 +587,10 @@ package trzsz
 //@ end
 
 //@ func isWindowsEnvironment pure
+//@   ensures r0 == windowsEnvironment
 //@ end
 //@ func isRunningOnWindows pure
+//@   ensures r0 == windowsRuntime
 //@ end
 
 //@ # ASSUMED: progress callbacks change only the progress display's own state, which no contract
